@@ -49,6 +49,7 @@ type flight struct {
 	fromEP  int
 	toEP    int
 	request bool
+	id      int
 }
 
 // Pair is the two-agent simulation.
@@ -73,6 +74,19 @@ type Pair struct {
 	// side long before it does on this side.
 	Victim     *[3]int
 	VictimLeft int
+	// Sys is the run as a schedule of the two-agent system model (coq/Model/TwoAgents.v): API operations
+	// ("A"/"B" + the operation's case tokens), DV i (deliver in-flight datagram i), DR i (drop), DU i
+	// (duplicate: a copy is appended).  In-flight datagrams are kept in the same order as the model's list.
+	sysOps     [][]string
+	sysLens    []int
+	sysClosed  map[int]bool
+	curSys     int
+	sysFrozen  bool
+	SysFinal   [2][]string // each side's last snapshot tokens when the log was frozen / at the end
+	nextFlight int
+	SysNet     int
+	SysTopo    []string // the topology as it was while the log ran
+	lastDup    int
 }
 
 func (p *Pair) eps(side int) []Endpoint {
@@ -83,8 +97,71 @@ func (p *Pair) eps(side int) []Endpoint {
 }
 
 // do runs an op on one side and records it in that side's core history.
+func (p *Pair) sys(t ...string) int {
+	if p.sysFrozen {
+		return -1
+	}
+	p.sysOps = append(p.sysOps, t)
+	p.sysLens = append(p.sysLens, len(p.net))
+	return len(p.sysOps) - 1
+}
+
+// sysDone records the number of in-flight datagrams once system operation k has completed.
+func (p *Pair) sysDone(k int) {
+	if k >= 0 && k < len(p.sysLens) && !p.sysFrozen && !p.sysClosed[k] {
+		p.sysLens[k] = len(p.net)
+		if p.sysClosed == nil {
+			p.sysClosed = map[int]bool{}
+		}
+		p.sysClosed[k] = true
+	}
+}
+
+// SysToks renders the schedule: operations separated by ";", each followed by "#" and the number of
+// datagrams in flight after it (checked against the model's list by the driver).
+func (p *Pair) SysToks() []string {
+	var t []string
+	for k, o := range p.sysOps {
+		if k > 0 {
+			t = append(t, ";")
+		}
+		t = append(t, o...)
+		t = append(t, "#", fmt.Sprint(p.sysLens[k]))
+	}
+	return t
+}
+
+// lastSnap returns the snapshot tokens of side's most recent observation.
+func (p *Pair) lastSnap(side int) []string {
+	o := p.Obs[side]
+	for i := len(o) - 1; i >= 0; i-- {
+		if o[i] == "|" {
+			return append([]string(nil), o[i+1:]...)
+		}
+	}
+	return nil
+}
+
+// FreezeSys ends the system-level log (the per-agent histories continue).
+func (p *Pair) FreezeSys() {
+	if !p.sysFrozen {
+		p.SysTopo = p.Topo.Toks()
+		p.SysFinal[0], p.SysFinal[1] = p.lastSnap(0), p.lastSnap(1)
+		p.SysNet = len(p.net)
+		p.sysFrozen = true
+	}
+}
+
 func (p *Pair) do(side int, o Op) []string {
 	ct, ot := p.S[side].Do(o)
+	sysK := -1
+	if o.Kind != "IS" && o.Kind != "ID" {
+		sysK = p.sys(append([]string{[]string{"A", "B"}[side]}, ct...)...)
+	}
+	if sysK >= 0 {
+		p.curSys = sysK
+	}
+	defer func() { p.sysDone(sysK) }()
 	if p.nops[side] == 0 {
 		p.Case[side] = append([]string{}, p.S[side].CfgToks()...)
 	} else {
@@ -112,6 +189,7 @@ func (p *Pair) collect(side int) {
 	wires := append([]wire(nil), s.wires...)
 	s.mu.Unlock()
 	other := 1 - side
+	var victims []int
 	for _, w := range wires {
 		fromEP := -1
 		for i, e := range p.eps(side) {
@@ -143,11 +221,16 @@ func (p *Pair) collect(side int) {
 			p.Stats["dropped_unreachable"]++
 			continue
 		}
-		if p.Victim != nil && p.VictimLeft > 0 && side == p.Victim[0] && fromEP == p.Victim[1] && toEP == p.Victim[2] && isStun(w.raw) {
+		if !isStun(w.raw) {
+			p.Stats["data_not_routed"]++
+			continue
+		}
+		victim := false
+		if p.Victim != nil && p.VictimLeft > 0 && side == p.Victim[0] && fromEP == p.Victim[1] && toEP == p.Victim[2] {
 			if m, err := s.Decode(w.raw); err == nil && m.Class == 0 {
 				p.VictimLeft--
 				p.Stats["dropped_victim_request"]++
-				continue
+				victim = true
 			}
 		}
 		if isStun(w.raw) {
@@ -160,17 +243,55 @@ func (p *Pair) collect(side int) {
 				p.renomTx[id] = true
 			}
 		}
+		p.nextFlight++
 		p.net = append(p.net, flight{to: other, lh: p.eps(other)[toEP].H, src: p.eps(side)[fromEP].Public,
-			raw: w.raw, fromEP: fromEP, toEP: toEP, request: isStun(w.raw)})
+			raw: w.raw, fromEP: fromEP, toEP: toEP, request: isStun(w.raw), id: p.nextFlight})
+		if victim {
+			victims = append(victims, p.nextFlight)
+		}
 	}
+	if len(victims) > 0 {
+		p.sysDone(p.curSys) // the operation that wrote them is complete; the losses are events of their own
+	}
+	for _, id := range victims {
+		p.drop(p.indexOf(id))
+	}
+}
+
+func (p *Pair) indexOf(id int) int {
+	for i, f := range p.net {
+		if f.id == id {
+			return i
+		}
+	}
+	return -1
+}
+
+// drop loses in-flight datagram i.
+func (p *Pair) drop(i int) {
+	if i < 0 {
+		return
+	}
+	p.noteLoss(p.net[i])
+	p.net = append(p.net[:i], p.net[i+1:]...)
+	p.sys("DR", fmt.Sprint(i))
 }
 
 // deliver hands in-flight datagram i to its destination agent.
 func (p *Pair) deliver(i int, keep bool) {
 	f := p.net[i]
-	if !keep {
-		p.net = append(p.net[:i], p.net[i+1:]...)
+	if keep { // the copy that stays in flight goes to the end (as in the model's SDup)
+		p.nextFlight++
+		c := f
+		c.id = p.nextFlight
+		p.lastDup = c.id
+		p.net = append(p.net, c)
+		p.sys("DU", fmt.Sprint(i))
 	}
+	p.net = append(p.net[:i], p.net[i+1:]...)
+	dvK := p.sys("DV", fmt.Sprint(i))
+	p.curSys = dvK
+	defer func() { p.sysDone(dvK) }()
 	s := p.S[f.to]
 	if _, live := s.locals[f.lh]; !live {
 		p.Stats["delivered_to_dead_socket"]++
@@ -346,29 +467,42 @@ func (p *Pair) BothConnected() bool {
 
 // Lossy treats every in-flight datagram once: deliver, drop, duplicate or delay.
 func (p *Pair) Lossy() {
-	n := len(p.net)
-	var later []flight
-	pending := append([]flight(nil), p.net[:n]...)
-	p.net = p.net[n:]
-	p.R.Shuffle(len(pending), func(i, j int) { pending[i], pending[j] = pending[j], pending[i] })
-	for _, f := range pending {
+	var ids []int
+	for _, f := range p.net {
+		ids = append(ids, f.id)
+	}
+	p.R.Shuffle(len(ids), func(i, j int) { ids[i], ids[j] = ids[j], ids[i] })
+	for _, id := range ids {
+		i := p.indexOf(id)
+		if i < 0 {
+			continue
+		}
 		switch x := p.R.Intn(10); {
 		case x < 5:
-			p.net = append(p.net, f)
-			p.deliver(len(p.net)-1, false)
+			p.deliver(i, false)
 		case x < 8:
 			p.Stats["dropped"]++
-			p.noteLoss(f)
+			p.drop(i)
 		case x < 9:
-			p.net = append(p.net, f)
-			p.deliver(len(p.net)-1, true)
-			p.deliver(len(p.net)-1, false)
+			p.deliver(i, true)
+			if j := p.indexOf(p.copyOf(id)); j >= 0 {
+				p.deliver(j, false)
+			}
 			p.Stats["duplicated"]++
-		default:
-			later = append(later, f)
+		default: // stays in flight
 		}
 	}
-	p.net = append(p.net, later...)
+}
+
+// copyOf returns the id of the most recent in-flight copy with the same bytes as flight id had (the duplicate just made).
+func (p *Pair) copyOf(id int) int {
+	best := -1
+	for _, f := range p.net {
+		if f.id > id && f.id > best && f.id == p.lastDup {
+			best = f.id
+		}
+	}
+	return best
 }
 
 // Renominate lets the controlling side renominate a random validated pair with the next value.
@@ -424,6 +558,7 @@ func (p *Pair) Renominate() (int, int, Addr, bool) {
 
 // RestartBoth restarts both agents with new credentials and re-signals everything.
 func (p *Pair) RestartBoth(credA, credB int) {
+	p.FreezeSys() // new sockets get new handles: outside the fixed topology of the system model
 	p.Restarted = true
 	p.net = nil
 	p.do(0, Op{Kind: "RS", A: credA, B: credA})
